@@ -301,7 +301,7 @@ func init() {
 			return c
 		},
 		Gen: func(r *Rng, tier string) *genProfile {
-			tpl := []string{"recover_flow", "confirm_flow", "token_near_miss", "token_near_miss", "register_flow"}
+			tpl := []string{"recover_flow", "confirm_flow", "token_near_miss", "token_near_miss", "register_flow", "recover_late_after_get"}
 			if tier == "thorough" {
 				tpl = append(tpl, "token_flip_sweep")
 			}
